@@ -2,6 +2,7 @@ import G3D.Proofs.Move
 import G3D.Proofs.Move2
 import G3D.Proofs.MoveReturned
 import G3D.Proofs.MovePolyhedron
+import G3D.Proofs.BridgeExact
 /-! # C07 — `move` translates the object in place and keeps it self-consistent
     `x.move v` is modelled as a function returning (receiver after the call, returned object), WITH the cached
     derived fields of the code (carrier line of Segment / HalfLine, plane and centre of ConvexPolygon, vertex / edge /
@@ -89,5 +90,12 @@ theorem polyhedron_move (B : Polyhedron) (hV : B.Valid) (v : V3) (B' R : Polyhed
 theorem polyhedron_move_succeeds (B : Polyhedron) (hV : B.Valid)
     (hEuler : ((collectVerts B.faces).length : Int) - (edgesOf B.faces []).length + B.faces.length = 2) (v : V3) :
     B.move v = .ok (B.moved v, B.moved v) := Polyhedron.move_valid_ok B hV hEuler v
+
+
+/-- a moved polyhedron (Valid, no coplanar neighbours) again meets the hypotheses of the exactness theorems, so every
+    flat / polygon intersection query on the moved receiver and on the returned object is exact for the translated set -/
+theorem polyhedron_move_keeps_exactness (B : Polyhedron) (hV : B.Valid) (hloc : B.FaceLocal) (v : V3)
+    (B' R : Polyhedron) (h : B.move v = .ok (B', R)) : B'.ExactHyp ∧ R.ExactHyp :=
+  Polyhedron.move_ok_exactHyp B hV hloc v B' R h
 
 end G3D.Props.C07
